@@ -156,7 +156,8 @@ func (t *TableSchema) UnmarshalJSON(data []byte) error {
 			return fmt.Errorf("an index has no column")
 		}
 		for _, column := range index {
-			if _, ok := p.Columns[column]; !ok {
+			// "_uuid" is a column of every table
+			if _, ok := p.Columns[column]; !ok && column != "_uuid" {
 				return fmt.Errorf("index %v names %q, which is not a column of the table", index, column)
 			}
 		}
